@@ -1,8 +1,201 @@
 package main
 
-// candCheck records the outcome of a candidate (inferred) loop invariant; candidates
-// are not obligations of any property: a failing candidate is simply dropped.
+import (
+	"fmt"
+	"go/types"
+
+	"golang.org/x/tools/go/ssa"
+)
+
+// Inferred loop invariants (Houdini): candidate facts about loop-carried values are
+// assumed at the loop head and checked like any invariant; candidates whose check fails
+// are dropped and the function is re-encoded until all surviving candidates verify.
+// Candidates are auxiliary proof obligations ("cand"); they belong to no property.
+
 func (e *Enc) candCheck(li *loopInfo, cd *candInv, phase string, goal Term) {
-	ob := e.obligeNamed(e.name+"/cand/loop"+itoa(li.index)+"/"+cd.desc+"/"+phase, "cand", cd.desc, 0, goal, nil, "candidate invariant "+cd.desc)
+	ob := e.obligeNamed(e.name+"/cand/loop"+itoa(li.index)+"/"+cd.desc+"/"+phase+"#"+itoa(e.ordinals["cand/"+cd.desc+phase]), "cand", cd.desc, 0, goal, nil, "inferred invariant "+cd.desc)
+	e.ordinals["cand/"+cd.desc+phase]++
 	ob.cand = cd
+	ob.candKey = fmt.Sprintf("%d/%s", li.index, cd.desc)
+}
+
+func (e *Enc) phiVal(phi *ssa.Phi, bind map[ssa.Value]Val) Term {
+	if bind != nil {
+		if v, ok := bind[phi]; ok {
+			return v.T
+		}
+	}
+	return e.vals[phi].T
+}
+
+func (e *Enc) genCandidates() {
+	for _, li := range e.loopList {
+		li.cands = nil
+		for _, in := range li.header.Instrs {
+			phi, ok := in.(*ssa.Phi)
+			if !ok {
+				break
+			}
+			add := func(desc string, mk func(e *Enc, bind map[ssa.Value]Val, st *State) Term) {
+				key := fmt.Sprintf("%d/%s", li.index, desc)
+				if e.killedCands[key] {
+					return
+				}
+				li.cands = append(li.cands, &candInv{desc: desc, mk: mk})
+			}
+			switch u := phi.Type().Underlying().(type) {
+			case *types.Basic:
+				if u.Info()&types.IsInteger == 0 {
+					continue
+				}
+				// entry values that are constants
+				for i, p := range li.header.Preds {
+					if li.blocks[p] {
+						continue
+					}
+					if c, ok := phi.Edges[i].(*ssa.Const); ok && c.Value != nil {
+						ct := e.constTerm(c)
+						add(phi.Name()+">="+ct.S, func(e *Enc, bind map[ssa.Value]Val, st *State) Term { return Ge(e.phiVal(phi, bind), ct) })
+						add(phi.Name()+"<="+ct.S, func(e *Enc, bind map[ssa.Value]Val, st *State) Term { return Le(e.phiVal(phi, bind), ct) })
+					}
+				}
+				// upper bounds by lengths of slices/strings compared in the loop
+				for _, other := range e.loopBoundTerms(li, phi) {
+					other := other
+					add(phi.Name()+"<="+other.desc, func(e *Enc, bind map[ssa.Value]Val, st *State) Term {
+						t, ok := other.mk(e)
+						if !ok {
+							return True
+						}
+						return Le(e.phiVal(phi, bind), t)
+					})
+					add(phi.Name()+"<"+other.desc, func(e *Enc, bind map[ssa.Value]Val, st *State) Term {
+						t, ok := other.mk(e)
+						if !ok {
+							return True
+						}
+						return Lt(e.phiVal(phi, bind), t)
+					})
+				}
+			case *types.Slice:
+				add(phi.Name()+".freshOrNil", func(e *Enc, bind map[ssa.Value]Val, st *State) Term {
+					v := e.phiVal(phi, bind)
+					return Or(Eq(SliceArr(v), IntLit(0)), Ge(Birth(SliceArr(v)), e.now0))
+				})
+			case *types.Pointer:
+				add(phi.Name()+".freshOrNil", func(e *Enc, bind map[ssa.Value]Val, st *State) Term {
+					v := e.phiVal(phi, bind)
+					return Or(Eq(v, IntLit(0)), Ge(Birth(v), e.now0))
+				})
+			}
+		}
+	}
+}
+
+type boundTerm struct {
+	desc string
+	mk   func(e *Enc) (Term, bool)
+}
+
+// loopBoundTerms: values the phi is compared against in the loop (i < n, i < len(s)) that are defined outside the loop.
+func (e *Enc) loopBoundTerms(li *loopInfo, phi *ssa.Phi) []boundTerm {
+	var out []boundTerm
+	seen := map[ssa.Value]bool{}
+	var related func(v ssa.Value) bool
+	related = func(v ssa.Value) bool {
+		if v == phi {
+			return true
+		}
+		if b, ok := v.(*ssa.BinOp); ok && li.blocks[b.Block()] {
+			if c, ok := b.Y.(*ssa.Const); ok && c.Value != nil {
+				return related(b.X)
+			}
+		}
+		return false
+	}
+	for b := range li.blocks {
+		for _, in := range b.Instrs {
+			bo, ok := in.(*ssa.BinOp)
+			if !ok {
+				continue
+			}
+			var other ssa.Value
+			switch bo.Op.String() {
+			case "<", "<=", ">", ">=", "!=", "==":
+				if related(bo.X) {
+					other = bo.Y
+				} else if related(bo.Y) {
+					other = bo.X
+				}
+			}
+			if other == nil || seen[other] {
+				continue
+			}
+			if oi, ok := other.(ssa.Instruction); ok && li.blocks[oi.Block()] {
+				continue
+			}
+			if _, isConst := other.(*ssa.Const); isConst {
+				continue
+			}
+			seen[other] = true
+			ov := other
+			out = append(out, boundTerm{desc: ov.Name(), mk: func(e *Enc) (Term, bool) {
+				v, ok := e.vals[ov]
+				if !ok || v.T.Sort != SInt {
+					return Term{}, false
+				}
+				return v.T, true
+			}})
+		}
+	}
+	return out
+}
+
+// Houdini runs the candidate elimination loop and leaves e encoded with the surviving candidates.
+func (e *Enc) Houdini(opts SolveOpts) {
+	e.killedCands = map[string]bool{}
+	e.opts.Houdini = true
+	for round := 0; round < 8; round++ {
+		e.Encode()
+		n := 0
+		for _, ob := range e.obs {
+			if ob.Kind == "cand" {
+				n++
+			}
+		}
+		if n == 0 {
+			return
+		}
+		// solve only the candidate obligations
+		saved := e.obs
+		var cands []*Obligation
+		for _, ob := range e.obs {
+			if ob.Kind == "cand" {
+				cands = append(cands, ob)
+			}
+		}
+		hopts := opts
+		hopts.PrimaryMs = 700
+		solveSubset(e, cands, hopts)
+		e.obs = saved
+		killed := 0
+		for _, ob := range cands {
+			if ob.Result != "unsat" {
+				if !e.killedCands[ob.candKey] {
+					e.killedCands[ob.candKey] = true
+					killed++
+				}
+			}
+		}
+		if killed == 0 {
+			return
+		}
+	}
+	// did not converge: drop all remaining candidates
+	for _, li := range e.loopList {
+		for _, cd := range li.cands {
+			e.killedCands[fmt.Sprintf("%d/%s", li.index, cd.desc)] = true
+		}
+	}
+	e.Encode()
 }
